@@ -7,9 +7,9 @@ package main
 
 import (
 	"fmt"
-	"os"
 	"github.com/RoaringBitmap/roaring/v2"
 	"github.com/RoaringBitmap/roaring/v2/roaring64"
+	"os"
 )
 
 // uniform view of the forward / reverse / many iterators of both widths
